@@ -34,6 +34,8 @@ func init() {
 	ghostSorts["txErrCell"] = "Int"                                    // the *error handed to the transaction's end function
 	ghostSorts["txCommitted"] = "Bool" // the transaction's end function ran and committed
 	ghostSorts["txEnded"] = "Bool"
+	ghostSorts["cbRow"] = "Int" // the row most recently delivered to a ResultFunc
+	volatileGhost["cbRow"] = true
 	ghostSorts["cbRows"] = "Int"                                       // rows delivered so far by the sqlitex.Execute in progress
 	volatileGhost["cbRows"] = true
 }
@@ -176,6 +178,10 @@ func init() {
 	// Transaction(conn) opens a savepoint and returns the function that ends it: it commits iff *errp == nil at that time
 	rules["sqlitex.Transaction"] = func(x *Exec, fr *Frame, st *State, ins ssa.Instruction, sig *types.Signature, args []Value) Value {
 		x.assumed["storage: sqlitex.Transaction(conn) opens a transaction; the returned function, given &err, commits iff *err == nil when it runs and rolls everything back otherwise; SQLite commits atomically, also across process death"] = true
+		if con := x.contractForFrame(fr.top); con != nil && con.Attrs["readonlytx"] == "yes" {
+			// a transaction opened by a function that steps no writing statement: it plays no part in the write bracket
+			return Value{T: Mk(sortFn, Int(int64(x.txEndFnID())), Int(1))}
+		}
 		st.setG("txOpen", True)
 		fn := Mk(sortFn, Int(int64(x.txEndFnID())), Int(0))
 		return Value{T: fn}
@@ -409,6 +415,19 @@ func ruleSqlitexExecute(x *Exec, fr *Frame, st *State, ins ssa.Instruction, sig 
 	assumeInv(it)
 	row := x.freshVal(it, "row", rowT)
 	x.assume(it, Not(Eq(row.T, Int(0))))
+	it.setG("cbRow", row.T)
+	// SQL semantics used: a query whose text ends in `WHERE id = $id` only returns rows whose id column equals the value
+	// bound to $id
+	if qs, ok := strLitOf[args[1].T]; ok && regexp.MustCompile(`(?is)where\s+id\s*=\s*\$id\s*;?\s*$`).MatchString(qs) {
+		if ni := fieldIndex(osu, "Named"); ni >= 0 {
+			if mt, ok := osu.Field(ni).Type().Underlying().(*types.Map); ok {
+				m := x.readLV(it, x.fieldLV(opts, ot, ni))
+				v := x.mapValue(it, mt, m, strLit("$id"))
+				x.assumed["storage: a SELECT ... WHERE id = $id returns only rows whose id column equals the text bound to $id"] = true
+				x.assume(it, Implies(Eq(Acc(v, 0), typeTag(types.Typ[types.String])), Eq(UF("colText", sortStr, row.T, strLit("id")), x.unbox(Acc(v, 1), types.Typ[types.String]))))
+			}
+		}
+	}
 	r := x.callFunc(fr, it, ins, bodyFn, []Value{row}, cb.Clo, site+".row")
 	var outs []*State
 	var errs []*Term
